@@ -25,6 +25,9 @@ type RuleSpec struct {
 	In, NotIn        []string
 	MinItems, MaxItems *uint64
 	MinPairs, MaxPairs *uint64
+	Optional           bool   // the field is explicitly optional ("?"): it has presence, so a present zero value is decidable
+	ExplicitUnspecifiedPrefixed bool // the inline enum's first option is spelled with the prefix (VAL_UNSPECIFIED)
+	StrFormat          string // string format (email ...)
 	Unique           *bool
 	// item rules of arrays
 	Item *RuleSpec
@@ -59,6 +62,10 @@ func (rs *RuleSpec) program() *Program {
 		}
 		e := enumD("", "ALPHA", "BETA", "GAMMA")
 		e.ExplicitUnspecified = rs.ExplicitUnspecified
+		if rs.ExplicitUnspecifiedPrefixed {
+			// the zero option written out with the (default) prefix of the inline enum Holder.Val
+			e.Options = append([]EnumOpt{{Name: "VAL_UNSPECIFIED"}}, e.Options...)
+		}
 		t = InlineOf(e)
 	case "object":
 		t = InlineOf(obj("", fld("x", T(TString))))
@@ -93,6 +100,9 @@ func (rs *RuleSpec) program() *Program {
 		t = MapOf(T(rs.Kind))
 	}
 	fd := &Field{Name: "val", T: t, Required: rs.Required, Attrs: attrs, Rule: rs}
+	if rs.Optional {
+		fd.Optional, fd.UseMark = true, true
+	}
 	f.Add(obj("Holder", fd))
 	return &Program{Files: []*File{f}}
 }
@@ -133,6 +143,13 @@ func attr(path string, v any) string {
 func RuleSpecs() []*RuleSpec {
 	var out []*RuleSpec
 	add := func(rs *RuleSpec) {
+		// scalar declarations also come as explicitly optional fields
+		if !rs.Array && rs.Family != "array" && rs.Family != "map" && rs.Family != "map-items" && !rs.ProtoEnum {
+			c := *rs
+			c.Optional = true
+			c.ID = fmt.Sprintf("%s:optional", rs.ID)
+			out = append(out, &c)
+		}
 		for _, req := range []bool{false, true} {
 			c := *rs
 			c.Required = req
@@ -247,6 +264,14 @@ func RuleSpecs() []*RuleSpec {
 			rs.Attrs = append(rs.Attrs, `rules.notIn = ["`+strings.Join(sub[1], `", "`)+`"]`)
 		}
 		add(rs)
+	}
+	add(&RuleSpec{ID: "enum:prefixed-zero:in", Family: "enum", Kind: TEnum, ExplicitUnspecifiedPrefixed: true, In: []string{"ALPHA", "GAMMA"}, Attrs: []string{`rules.in = ["ALPHA", "GAMMA"]`}})
+	add(&RuleSpec{ID: "enum:prefixed-zero:notin", Family: "enum", Kind: TEnum, ExplicitUnspecifiedPrefixed: true, NotIn: []string{"BETA"}, Attrs: []string{`rules.notIn = ["BETA"]`}})
+	// strings with a well-known format next to length rules
+	for _, fm := range []string{"email", "uri", "hostname"} {
+		add(&RuleSpec{ID: "string:format-" + fm, Family: "string-format", Kind: TString, StrFormat: fm, Attrs: []string{fmt.Sprintf("format = %q", fm)}})
+		add(&RuleSpec{ID: "string:format-" + fm + "+maxlen12", Family: "string-format", Kind: TString, StrFormat: fm, MaxLen: u64(12), Attrs: []string{fmt.Sprintf("format = %q", fm), "rules.maxLength = 12"}})
+		add(&RuleSpec{ID: "string:format-" + fm + "+minlen8", Family: "string-format", Kind: TString, StrFormat: fm, MinLen: u64(8), Attrs: []string{fmt.Sprintf("format = %q", fm), "rules.minLength = 8"}})
 	}
 	add(&RuleSpec{ID: "enum:in-unspecified", Family: "enum", Kind: TEnum, ExplicitUnspecified: true, In: []string{"UNSPECIFIED", "ALPHA"}, Attrs: []string{`rules.in = ["UNSPECIFIED", "ALPHA"]`}})
 	// maps: pair counts
